@@ -256,6 +256,8 @@ class CallMixin:
 
     def apply_modifies(self, st, modifies, env, old):
         if modifies is None or "*" in modifies:
+            if self.con.modifies is not None and "*" not in self.con.modifies:
+                self.oblige(st, z3.BoolVal(False), "frame", None, "callee with an unconstrained frame called from a function with a modifies clause")
             self.havoc_all(st)
             return
         for m in modifies:
@@ -266,6 +268,7 @@ class CallMixin:
                 continue
             if m.startswith("*."):
                 f = m[2:]
+                self.check_write_all(st, f)
                 st.setH(f, fresh_array(f))
                 self.written.add(f)
                 continue
@@ -273,6 +276,7 @@ class CallMixin:
                 target = self.spec_val(m[:-2], old, env, old=old, extra={"$old_names": env})
                 r = Val.r(target.t)
                 fields = ("$items", "$len") if m.endswith("[]") else ("$dhas", "$dval", "$len")
+                self.check_write(st, r, fields[0])
                 for f in fields:
                     arr = st.H(f)
                     st.setH(f, z3.Store(arr, r, smt.fresh("hv." + f.strip("$"), arr.sort().range())))
@@ -335,9 +339,9 @@ class CallMixin:
     def construct(self, st, cls, pos, kws, node, txt, k):
         if cls is bool:
             return k(st, sv_bool(self.truthy(st, pos[0])) if pos else sv_bool(False))
-        if cls is int:
+        if cls is int or cls.__name__ in ("i64", "i32"):
             if pos and pos[0].ty in ("int", "bool"):
-                return k(st, sv_int(smt.num(pos[0].t)))
+                return k(st, sv_int(smt.N(pos[0])))
             raise Unsupported("int() of non-int")
         if cls is str:
             if not pos:
@@ -452,7 +456,7 @@ class CallMixin:
                 arr = smt.fresh("comp", z3.ArraySort(IntS, Val))
                 if not gen.ifs:
                     s1.assume(z3.ForAll([j], z3.Implies(z3.And(j >= 0, j < n), arr[j] == val.t), patterns=[arr[j]]))
-                    self.set_list(s1, ref, arr, z3.If(n > 0, n, z3.IntVal(0)))
+                    self.set_list(s1, ref, arr, z3.If(n > 0, n, z3.IntVal(0)), fresh=True)
                 else:
                     # filter: strictly increasing index map idx:[0,m)->[0,n) onto exactly the elements satisfying c
                     m = smt.fresh("flen", IntS)
@@ -467,7 +471,7 @@ class CallMixin:
                     val_i = self.spec_val(comp.elt, s1, dict(s1.locals, **env_i), old=self.entry)
                     s1.assume(z3.ForAll([i], z3.Implies(z3.And(i >= 0, i < m), z3.And(c_i, arr[i] == val_i.t)), patterns=[arr[i]]))
                     s1.assume(z3.ForAll([j], z3.Implies(z3.And(j >= 0, j < n, c), z3.And(pos_[j] >= 0, pos_[j] < m, idx[pos_[j]] == j)), patterns=[pos_[j]]))
-                    self.set_list(s1, ref, arr, m)
+                    self.set_list(s1, ref, arr, m, fresh=True)
                     s1.locals["$filter_src_len"] = sv_int(n)
                 return k(s1, SV(ref, "list"))
             raise Unsupported(f"comprehension consumer {consumer}")
@@ -505,18 +509,18 @@ class CallMixin:
             return k(st, sv_bool(self.truthy(st, pos[0])) if pos else sv_bool(False))
         if name in ("int", "i64"):
             if pos[0].ty in ("int", "bool"):
-                return k(st, sv_int(smt.num(pos[0].t)))
+                return k(st, sv_int(smt.N(pos[0])))
             raise Unsupported("int() of non-int")
         if name in ("str", "repr"):
             return k(st, SV(smt.mk_str(self.str_of(st, pos[0])), "str"))
         if name in ("min", "max") and len(pos) == 2:
             a, b = pos
             if a.ty in ("int", "bool") and b.ty in ("int", "bool"):
-                x, y = smt.num(a.t), smt.num(b.t)
+                x, y = smt.N(a), smt.N(b)
                 return k(st, sv_int(z3.If((x <= y) if name == "min" else (x >= y), x, y)))
             raise Unsupported("min/max of non-ints")
         if name == "abs" and pos[0].ty in ("int", "bool"):
-            x = smt.num(pos[0].t)
+            x = smt.N(pos[0])
             return k(st, sv_int(z3.If(x >= 0, x, -x)))
         if name == "hash":
             f = self.get_uf("hashf", [Val, IntS], IntS)
@@ -586,7 +590,7 @@ class CallMixin:
                 return k(st, SV_NONE)
             if m == "pop":
                 if pos:
-                    i0 = smt.num(pos[0].t)
+                    i0 = smt.N(pos[0])
                     i = z3.If(i0 < 0, i0 + n, i0)
                 else:
                     i = n - 1
@@ -604,7 +608,7 @@ class CallMixin:
 
                 return self.branch(st, ok, do, lambda s2: self.raise_builtin(s2, "IndexError", node))
             if m == "insert":
-                i0 = smt.num(pos[0].t)
+                i0 = smt.N(pos[0])
                 i1 = z3.If(i0 < 0, i0 + n, i0)
                 i = z3.If(i1 < 0, z3.IntVal(0), z3.If(i1 > n, n, i1))
                 arr = smt.fresh("ins", z3.ArraySort(IntS, Val))
